@@ -36,6 +36,10 @@ def run(tier, seed, pid="C03"):
     vlib.conformance(o, qc.FAMILY, "QBFTTrace", qc.trace_cfg_of, "c02", rnd, tag="random", replay_of=qc.trace_to_schedule)
     vlib.conformance(o, qc.FAMILY, "QBFTTrace", qc.trace_cfg_of, "c02", qc.scenario_schedules(seed, "c03", 6 if thorough else 1),
                      tag="scenario", replay_of=qc.trace_to_schedule)
+    # component tier: forged / replayed votes against the real consensus components (decisions must be leader-proposed
+    # values backed by a quorum of genuine COMMITs); the liveness probe belongs to C04
+    import conscluster
+    conscluster.stage(o, tier, seed, probe_finding=False)
     tr = vlib.split_traces(vlib.read_ndjson(vlib.workdir(pid) + "/trace_random.ndjson"))
     vlib.binding_selftest(o, qc.FAMILY, "QBFTTrace", qc.trace_cfg_of, tr, qc.mutators())
     o.extra["decisions_observed"] = sum(1 for t in tr for e in t if e.get("ev") == "Deliver" and e.get("rule") in ("QC", "JD"))
